@@ -379,6 +379,8 @@ func runC10(r *Run) {
 			"the scan stops at a released record: frozen validators after it are missing from the malicious set and keep receiving positive-power updates", p.pos(cl.Pos()))
 	}
 	checkLastActive(r)
+	checkPerBlockRebuildAs(r, "C10.rebuild", "identity.ValidatorStore")
+	checkOptionsValidated(r, "C10.options", "ValidateStaking", 3)
 	r.Floor("C10.", 20)
 }
 
